@@ -60,10 +60,90 @@ def class_attrs(cls_node):
     return out
 
 
+def local_signatures(fn):
+    """local name -> sorted list of signatures of its definitions, with every local name abstracted to `_`: the right-hand
+    side of an assignment (`=:<src>`, `op=:<src>`), the iterable and position of a for target (`for[i]:<src>`), with-targets and
+    walrus likewise.  Two methods that differ only by a consistent renaming of locals have the same signatures."""
+    locs = local_names(fn)
+
+    class Abs(ast.NodeTransformer):
+        def visit_Name(self, n):
+            if n.id in locs and n.id != "self":
+                return ast.copy_location(ast.Name(id="_", ctx=n.ctx), n)
+            return n
+
+    def ab(e):
+        return src(Abs().visit(copy.deepcopy(e)))
+    sig = {}
+
+    def add(t, text, pos=""):
+        if isinstance(t, ast.Name):
+            sig.setdefault(t.id, []).append(text if not pos else "%s@%s" % (text, pos))
+        elif isinstance(t, (ast.Tuple, ast.List)):
+            for k, e in enumerate(t.elts):
+                add(e, text, "%s%d" % (pos + "." if pos else "", k))
+        elif isinstance(t, ast.Starred):
+            add(t.value, text, pos + "*")
+    for n in ast.walk(fn):
+        if isinstance(n, ast.Assign):
+            for t in n.targets:
+                add(t, "=:" + ab(n.value))
+        elif isinstance(n, ast.AugAssign):
+            add(n.target, "%s=:%s" % (type(n.op).__name__, ab(n.value)))
+        elif isinstance(n, ast.AnnAssign) and n.value is not None:
+            add(n.target, "=:" + ab(n.value))
+        elif isinstance(n, ast.For):
+            add(n.target, "for:" + ab(n.iter))
+        elif isinstance(n, ast.comprehension):
+            add(n.target, "comp:" + ab(n.iter))
+        elif isinstance(n, ast.NamedExpr):
+            add(n.target, ":=" + ab(n.value))
+    return {k: sorted(v) for k, v in sig.items()}
+
+
+def undo_local_renames(fn, base_names, base_sigs):
+    """Locals of a baseline method that were consistently renamed get their baseline names back: a baseline local that no longer
+    occurs and a new local whose definition signatures (locals abstracted) are the same - and unique on both sides - are the same
+    variable.  Alpha-renaming inside one function is semantics-preserving whatever the match."""
+    if not base_sigs:
+        return 0
+    if any(isinstance(n, (ast.Global, ast.Nonlocal)) for n in ast.walk(fn)):
+        return 0
+    cur = local_names(fn)
+    params = {a.arg for a in fn.args.args + fn.args.kwonlyargs + fn.args.posonlyargs}
+    missing = [n for n in base_names if n not in cur and n in base_sigs]
+    new = [n for n in cur if n not in base_names and n not in params and not n.startswith("__")]
+    if not missing or not new:
+        return 0
+    cs = local_signatures(fn)
+    by_sig_m, by_sig_n = {}, {}
+    for m in missing:
+        by_sig_m.setdefault(tuple(base_sigs[m]), []).append(m)
+    for n in new:
+        if n in cs:
+            by_sig_n.setdefault(tuple(cs[n]), []).append(n)
+    mapping = {}
+    for sg, ms in by_sig_m.items():
+        ns = by_sig_n.get(sg, [])
+        if len(ms) == 1 and len(ns) == 1:
+            mapping[ns[0]] = ms[0]
+    if not mapping:
+        return 0
+    for n in ast.walk(fn):
+        if isinstance(n, ast.Name) and n.id in mapping:
+            n.id = mapping[n.id]
+    return len(mapping)
+
+
 def build_vocab(trees):
     out = {}
     for file, tree in trees.items():
-        ent = {"classes": {}, "functions": {}, "attrs": {}, "params": {}}
+        ent = {"classes": {}, "functions": {}, "attrs": {}, "params": {}, "local_sigs": {}}
+        for n in tree.body:
+            if isinstance(n, ast.ClassDef):
+                ent["local_sigs"][n.name] = {f.name: local_signatures(f) for f in n.body if isinstance(f, ast.FunctionDef)}
+            elif isinstance(n, ast.FunctionDef):
+                ent["local_sigs"].setdefault("", {})[n.name] = local_signatures(n)
         for n in tree.body:
             if isinstance(n, ast.ClassDef):
                 ent["attrs"][n.name] = class_attrs(n)
@@ -393,6 +473,14 @@ class Inliner:
         self.counter = 0
         self.inlined = []
         self.local_helpers = {}
+        # new module-level helpers of OTHER analysed modules that this module imports by name
+        for n in tree.body:
+            if isinstance(n, ast.ImportFrom) and n.module and n.level == 0:
+                src_file = n.module.replace(".", "/") + ".py"
+                pool = IMPORTABLE_HELPERS[0].get(src_file, {})
+                for a in n.names:
+                    if a.name in pool and (a.asname or a.name) not in self.module_helpers and (a.asname or a.name) not in self.known_functions:
+                        self.module_helpers[a.asname or a.name] = pool[a.name]
         self.reduce_names = {"functools.reduce"}
         for n in tree.body:
             if isinstance(n, ast.ImportFrom) and n.module == "functools":
@@ -706,8 +794,48 @@ class Inliner:
                 # a closure reads the CURRENT value at call time, exactly like inlined code does - always equivalent
                 self.local_helpers[st.name] = st
 
+        def forward_generator_objects(stmts):
+            """g = self._gen(args) ... for .. in g / enumerate(g):   the generator object bound to a local that is used exactly once, as
+            that loop's iterable: creating it runs nothing, so the call is written where it is iterated (arguments: plain
+            designators that nothing in between rebinds)."""
+            for idx, s0 in enumerate(list(stmts)):
+                if not (isinstance(s0, ast.Assign) and len(s0.targets) == 1 and isinstance(s0.targets[0], ast.Name) and isinstance(s0.value, ast.Call)):
+                    continue
+                hg0, _ = me.match_call(s0.value, cls, helpers)
+                if hg0 is None or hg0 is fn or not any(isinstance(x, (ast.Yield, ast.YieldFrom)) for x in ast.walk(hg0)):
+                    continue
+                gname = s0.targets[0].id
+                occ = [n for n in ast.walk(fn) if isinstance(n, ast.Name) and n.id == gname]
+                if len(occ) != 2:
+                    continue
+                use = [n for n in occ if n is not s0.targets[0]][0]
+                loop = None
+                for t in stmts[idx + 1:]:
+                    if isinstance(t, ast.For) and (t.iter is use or (isinstance(t.iter, ast.Call) and isinstance(t.iter.func, ast.Name) and
+                                                                    t.iter.func.id == "enumerate" and t.iter.args and t.iter.args[0] is use)):
+                        loop = t
+                        break
+                if loop is None:
+                    continue
+                args = list(s0.value.args) + [kw_.value for kw_ in s0.value.keywords]
+                if not all(simple_arg(a) for a in args):
+                    continue
+                rd = {n.id for a in args for n in ast.walk(a) if isinstance(n, ast.Name)}
+                between = stmts[idx + 1:stmts.index(loop)]
+                if any(isinstance(n, ast.Name) and n.id in rd and isinstance(n.ctx, ast.Store) for t in between for n in ast.walk(t)) or \
+                        any("<state>" in writes_of(t) for t in between):
+                    continue
+                if loop.iter is use:
+                    loop.iter = s0.value
+                else:
+                    loop.iter.args[0] = s0.value
+                stmts.remove(s0)
+                changed[0] = True
+            return stmts
+
         def in_block(stmts):
             out = []
+            stmts = forward_generator_objects(list(stmts))
             for s in stmts:
                 # X.extend(E for v in IT)  ->  for v in IT: X.append(E)      (E does not read X; no filter-free restriction needed)
                 if isinstance(s, ast.Expr) and isinstance(s.value, ast.Call) and isinstance(s.value.func, ast.Attribute) and \
@@ -749,6 +877,29 @@ class Inliner:
                     ast.fix_missing_locations(s)
                     out.extend(in_block([init, loop]))
                     changed[0] = True
+                # for i, v in enumerate(self._gen(..)[, start]): BODY  ->  n = start; for v in self._gen(..): i = n; BODY; n += 1
+                # (BODY without `continue`, so the counter is advanced on every iteration)
+                if isinstance(s, ast.For) and isinstance(s.iter, ast.Call) and isinstance(s.iter.func, ast.Name) and s.iter.func.id == "enumerate" and \
+                        1 <= len(s.iter.args) <= 2 and all(kw_.arg == "start" for kw_ in s.iter.keywords) and isinstance(s.target, ast.Tuple) and \
+                        len(s.target.elts) == 2 and isinstance(s.target.elts[0], ast.Name) and isinstance(s.iter.args[0], ast.Call) and not s.orelse:
+                    hg2, _m2 = me.match_call(s.iter.args[0], cls, helpers)
+                    if hg2 is not None and hg2 is not fn and any(isinstance(x, (ast.Yield, ast.YieldFrom)) for x in ast.walk(hg2)) and \
+                            not any(isinstance(x, ast.Continue) for b_ in s.body for x in ast.walk(b_)):
+                        me.counter += 1
+                        cn = "__pos%d" % me.counter
+                        start = s.iter.args[1] if len(s.iter.args) == 2 else (s.iter.keywords[0].value if s.iter.keywords else ast.Constant(value=0))
+                        init0 = ast.Assign(targets=[ast.Name(id=cn, ctx=ast.Store())], value=start)
+                        bind = ast.Assign(targets=[s.target.elts[0]], value=ast.Name(id=cn, ctx=ast.Load()))
+                        inc = ast.AugAssign(target=ast.Name(id=cn, ctx=ast.Store()), op=ast.Add(), value=ast.Constant(value=1))
+                        s.iter = s.iter.args[0]
+                        s.target = s.target.elts[1]
+                        s.body = [bind] + s.body + [inc]
+                        for t_ in (init0, bind, inc):
+                            ast.copy_location(t_, s)
+                            ast.fix_missing_locations(t_)
+                        ast.fix_missing_locations(s)
+                        out.append(init0)
+                        changed[0] = True
                 # for v in map(self._helper, X): BODY  ->  for m in X: v = self._helper(m); BODY   (map is lazy: same order of calls)
                 if isinstance(s, ast.For) and isinstance(s.iter, ast.Call) and isinstance(s.iter.func, ast.Name) and s.iter.func.id == "map" and \
                         len(s.iter.args) == 2 and not s.iter.keywords and isinstance(s.iter.args[0], (ast.Attribute, ast.Name)):
@@ -1079,6 +1230,19 @@ def stable_index(sl):
     return True
 
 
+IMPORTABLE_HELPERS = [{}]  # file -> {function name: FunctionDef} of NEW module-level functions (importable by other modules)
+
+
+def collect_importable_helpers(parsed, vocab):
+    out = {}
+    for file, tree in parsed.items():
+        known = set(vocab.get(file, {"functions": {}})["functions"])
+        fs = {n.name: n for n in tree.body if isinstance(n, ast.FunctionDef) and n.name not in known}
+        if fs:
+            out[file] = fs
+    return out
+
+
 INHERITED_HELPERS = [{}]   # class name -> {method name: FunctionDef} of NEW methods defined in a base class (any analysed file)
 
 
@@ -1111,14 +1275,41 @@ def collect_inherited_helpers(parsed, vocab):
 
 
 def collect_multiply_defined(trees):
-    count = {}
+    """Method names whose call through `self` may be dispatched to another definition: a method defined in a class AND in one of
+    its descendants or ancestors (an override).  Two unrelated classes defining a method of the same name are no hazard: in the
+    methods of either class, self.m() can only mean its own m (or a descendant's, and there is none)."""
+    classes = {}
     for tree in trees:
         for c in tree.body:
             if isinstance(c, ast.ClassDef):
-                for f in c.body:
-                    if isinstance(f, ast.FunctionDef):
-                        count[f.name] = count.get(f.name, 0) + 1
-    return {n for n, k in count.items() if k > 1}
+                classes.setdefault(c.name, c)
+
+    def ancestors(name, seen=None):
+        seen = seen or set()
+        c = classes.get(name)
+        if c is None:
+            return seen
+        for b in c.bases:
+            bn = b.id if isinstance(b, ast.Name) else (b.attr if isinstance(b, ast.Attribute) else None)
+            if bn and bn not in seen:
+                seen.add(bn)
+                ancestors(bn, seen)
+        return seen
+    defs = {}
+    for name, c in classes.items():
+        for f in c.body:
+            if isinstance(f, ast.FunctionDef):
+                defs.setdefault(f.name, set()).add(name)
+    out = set()
+    for m, cs in defs.items():
+        if len(cs) < 2:
+            continue
+        for a in cs:
+            anc = ancestors(a)
+            if anc & cs:
+                out.add(m)
+                break
+    return out
 
 
 def collect_rebound(trees):
@@ -1394,6 +1585,30 @@ def _blocks(fn):
         for h in getattr(n, "handlers", []) or []:
             stack.append(h)
     return out
+
+
+def split_chained_assigns(fn):
+    """self.A = x = E   (or  x = self.A = E)   ->   self.A = E; x = self.A      (one evaluation of E; both names denote that object)"""
+    k = 0
+    for blk in _blocks(fn):
+        i = 0
+        while i < len(blk):
+            st = blk[i]
+            if isinstance(st, ast.Assign) and len(st.targets) == 2:
+                attrs = [t for t in st.targets if isinstance(t, ast.Attribute) and isinstance(t.value, ast.Name) and t.value.id == "self"]
+                names = [t for t in st.targets if isinstance(t, ast.Name)]
+                if len(attrs) == 1 and len(names) == 1:
+                    first = ast.Assign(targets=[attrs[0]], value=st.value)
+                    load = ast.Attribute(value=ast.Name(id="self", ctx=ast.Load()), attr=attrs[0].attr, ctx=ast.Load())
+                    second = ast.Assign(targets=[names[0]], value=load)
+                    for t in (first, second):
+                        ast.copy_location(t, st)
+                        ast.fix_missing_locations(t)
+                    blk[i:i + 1] = [first, second]
+                    k += 1
+                    i += 1
+            i += 1
+    return k
 
 
 def split_tuple_assigns(fn):
@@ -3000,6 +3215,190 @@ def expand_return_ifexp(fn):
     return k
 
 
+def split_fold_accumulators(fn):
+    """v = X[0]; [plain assignments;] for c in X[1:]: if key(c) >= key(v): v = c        where v is ALSO defined elsewhere (a cursor
+    that doubles as the running best)   ->   the scan gets its own variable m (v renamed from its initialisation to the end of
+    the loop) followed by `v = m`.  A renaming of one live range: the value of v after the scan is the same."""
+    k = 0
+    for blk in _blocks(fn):
+        j = 1
+        while j < len(blk):
+            L = blk[j]
+            j += 1
+            if not (isinstance(L, ast.For) and not L.orelse and isinstance(L.target, ast.Name)):
+                continue
+            c = L.target.id
+            cands = {t.targets[0].id for t in ast.walk(L) if isinstance(t, ast.Assign) and len(t.targets) == 1 and isinstance(t.targets[0], ast.Name) and
+                     isinstance(t.value, ast.Name) and t.value.id == c}
+            for v in sorted(cands):
+                stores_in_L = [n for n in ast.walk(L) if isinstance(n, ast.Name) and n.id == v and isinstance(n.ctx, ast.Store)]
+                if len(stores_in_L) != 1 or v == c:
+                    continue
+                li = blk.index(L)
+                ii = None
+                for q in range(li - 1, -1, -1):
+                    t = blk[q]
+                    if not isinstance(t, ast.Assign):
+                        break
+                    if len(t.targets) == 1 and isinstance(t.targets[0], ast.Name) and t.targets[0].id == v:
+                        ii = q
+                        break
+                if ii is None or _mentions_name(blk[ii].value, v):
+                    continue
+                region = blk[ii:li + 1]
+                region_ids = {id(n) for t in region for n in ast.walk(t)}
+                others = [n for n in ast.walk(fn) if isinstance(n, ast.Name) and n.id == v and isinstance(n.ctx, ast.Store) and id(n) not in region_ids]
+                if not others:
+                    continue
+                taken = {n.id for n in ast.walk(fn) if isinstance(n, ast.Name)}
+                m = "__best_%s" % v
+                while m in taken:
+                    m += "_"
+                rn = _Rename({v: m}, {})
+                for q in range(ii, li + 1):
+                    blk[q] = rn.visit(blk[q])
+                back = ast.Assign(targets=[ast.Name(id=v, ctx=ast.Store())], value=ast.Name(id=m, ctx=ast.Load()))
+                ast.copy_location(back, L)
+                ast.fix_missing_locations(back)
+                blk.insert(li + 1, back)
+                ast.fix_missing_locations(fn)
+                k += 1
+                j = li + 2
+                break
+    return k
+
+
+def open_generator_iters(fn):
+    """for v in (E for w in S if P): BODY   ->   for w in S: if P: v = E; BODY      (a generator expression is lazy: its filter and
+    element are evaluated exactly when the loop asks for the next element, which is what the rewritten loop does)"""
+    k = 0
+    for n in ast.walk(fn):
+        if not (isinstance(n, ast.For) and isinstance(n.iter, ast.GeneratorExp) and len(n.iter.generators) == 1 and not n.iter.generators[0].is_async and
+                isinstance(n.iter.generators[0].target, ast.Name) and not n.orelse):
+            continue
+        ge = n.iter
+        g = ge.generators[0]
+        w = g.target.id
+        inside = {id(x) for x in ast.walk(ge)}
+        clash = any(isinstance(x, ast.Name) and x.id == w and id(x) not in inside for x in ast.walk(fn))
+        same = isinstance(n.target, ast.Name) and n.target.id == w and isinstance(ge.elt, ast.Name) and ge.elt.id == w
+        if clash and not same:
+            # the comprehension variable would capture / clobber a local of the function: use a fresh name
+            taken = {x.id for x in ast.walk(fn) if isinstance(x, ast.Name)}
+            nw = "__it_%s" % w
+            while nw in taken:
+                nw += "_"
+            rn = _Rename({w: nw}, {})
+            ge = rn.visit(copy.deepcopy(ge))
+            g = ge.generators[0]
+            w = nw
+        body = n.body
+        if not (isinstance(n.target, ast.Name) and isinstance(ge.elt, ast.Name) and ge.elt.id == w and n.target.id == w):
+            bind = ast.Assign(targets=[n.target], value=ge.elt)
+            ast.copy_location(bind, n)
+            body = [bind] + body
+        for c in reversed(g.ifs):
+            body = [ast.copy_location(ast.If(test=c, body=body, orelse=[]), n)]
+        n.target = ast.copy_location(ast.Name(id=w, ctx=ast.Store()), n.target)
+        n.iter = g.iter
+        n.body = body
+        ast.fix_missing_locations(n)
+        k += 1
+    return k
+
+
+def dict_calls_to_displays(fn):
+    """dict(a=x, b=y) (keywords only) -> {'a': x, 'b': y}: the same dictionary, written as a display"""
+    k = [0]
+
+    class T(ast.NodeTransformer):
+        def visit_Call(self, n):
+            self.generic_visit(n)
+            if isinstance(n.func, ast.Name) and n.func.id == "dict" and not n.args and n.keywords and all(kw.arg is not None for kw in n.keywords):
+                k[0] += 1
+                return ast.copy_location(ast.Dict(keys=[ast.Constant(value=kw.arg) for kw in n.keywords], values=[kw.value for kw in n.keywords]), n)
+            return n
+    if "dict" in {x.id for x in ast.walk(fn) if isinstance(x, ast.Name) and isinstance(x.ctx, ast.Store)}:
+        return 0
+    T().visit(fn)
+    ast.fix_missing_locations(fn)
+    return k[0]
+
+
+def islice_to_slices(fn):
+    """for v in islice(X, a, None) -> for v in X[a:];  islice(X, n) -> zip(range(n), X)-style truncation is left to the layer
+    rules; only the `tail of a list` form is rewritten, for X a children list / designator (a list, so slicing yields the same
+    elements in the same order)."""
+    k = 0
+    for n in ast.walk(fn):
+        if isinstance(n, ast.For) and isinstance(n.iter, ast.Call) and src(n.iter.func) in ("itertools.islice", "islice") and not n.iter.keywords:
+            a = n.iter.args
+            if len(a) == 3 and isinstance(a[2], ast.Constant) and a[2].value is None and simple_arg(a[0]) and \
+                    (isinstance(a[0], ast.Name) or (isinstance(a[0], ast.Call) and isinstance(a[0].func, ast.Attribute) and a[0].func.attr == "get_children")):
+                n.iter = ast.copy_location(ast.Subscript(value=a[0], slice=ast.Slice(lower=a[1], upper=None, step=None), ctx=ast.Load()), n.iter)
+                ast.fix_missing_locations(n)
+                k += 1
+    return k
+
+
+def rematerialise_loop_tests(fn):
+    """x = E; while <test on x>: ...; x = E        (every definition of the local x has the same side-effect-free right-hand side E,
+    and on every path from a definition to the loop test nothing that E reads is written)   ->   the test reads E itself.
+    `children = node.get_children(); while children is not None: ...; node = best; children = node.get_children()` is the loop
+    `while node.get_children() is not None`."""
+    from . import cfg as C
+    from . import effects as E
+    k = 0
+    g = None
+    for w in [n for n in ast.walk(fn) if isinstance(n, ast.While)]:
+        names = {n.id for n in ast.walk(w.test) if isinstance(n, ast.Name)}
+        for x in sorted(names):
+            defs = [n for n in ast.walk(fn) if isinstance(n, ast.Assign) and len(n.targets) == 1 and isinstance(n.targets[0], ast.Name) and n.targets[0].id == x]
+            stores = [n for n in ast.walk(fn) if isinstance(n, ast.Name) and n.id == x and isinstance(n.ctx, (ast.Store, ast.Del))]
+            if len(defs) < 2 or len(defs) != len(stores):
+                continue
+            rhs = {src(d.value) for d in defs}
+            if len(rhs) != 1 or not pure_expr(defs[0].value) or isinstance(defs[0].value, (ast.Constant, ast.Name)):
+                continue
+            if x in {a.arg for a in fn.args.args}:
+                continue
+            val = defs[0].value
+            deps = {n.id for n in ast.walk(val) if isinstance(n, ast.Name)}
+            if g is None:
+                try:
+                    g = C.CFG(fn)
+                except Exception:
+                    return k
+            try:
+                tnode = g.node_of(w)
+                dnodes = [g.node_of(d) for d in defs]
+            except Exception:
+                continue
+            # every path into the test comes from a definition without passing a store to a dependency of E (or a state change
+            # E could observe: E is a getter chain on locals, so only rebinding the locals matters, plus tree growth for children)
+            bad = False
+            writers = [n for n in g.nodes if n.ast is not None and n not in dnodes and
+                       ((E.stored_locs(n) & deps) or any(isinstance(c, ast.Call) and isinstance(c.func, ast.Attribute) and c.func.attr in TREE_GROWERS
+                                                         for r in E.node_exprs(n) for c in ast.walk(r)))]
+            if g.paths_avoiding(g.entry, tnode, dnodes):
+                bad = True
+            for wn in writers:
+                if g.paths_avoiding(wn, tnode, dnodes):
+                    bad = True
+            if bad:
+                continue
+
+            class Sub(ast.NodeTransformer):
+                def visit_Name(self, n):
+                    if n.id == x and isinstance(n.ctx, ast.Load):
+                        return ast.copy_location(copy.deepcopy(val), n)
+                    return n
+            w.test = Sub().visit(w.test)
+            ast.fix_missing_locations(w)
+            k += 1
+    return k
+
+
 def expand_dict_splats(fn):
     """f(**d) where d is a local bound exactly once to a dict display with constant string keys, never mutated or passed
     elsewhere, and whose value expressions are not affected between the display and the call: the keywords are written out."""
@@ -3477,6 +3876,24 @@ def normalize_tree(file, tree, vocab):
         pre += expand_return_ifexp(f0)
     if pre:
         log.append("%d conditional expression(s) at statement level opened into if/else" % pre)
+    # consistent renamings of locals of baseline methods are undone first
+    v0 = vocab.get(file, {})
+    lr = 0
+    for node in tree.body:
+        if isinstance(node, ast.ClassDef):
+            for f0 in node.body:
+                if isinstance(f0, ast.FunctionDef):
+                    bn = (v0.get("classes", {}).get(node.name) or {}).get(f0.name)
+                    bs = (v0.get("local_sigs", {}).get(node.name) or {}).get(f0.name)
+                    if bn is not None and bs:
+                        lr += undo_local_renames(f0, set(bn), bs)
+        elif isinstance(node, ast.FunctionDef):
+            bn = v0.get("functions", {}).get(node.name)
+            bs = (v0.get("local_sigs", {}).get("") or {}).get(node.name)
+            if bn is not None and bs:
+                lr += undo_local_renames(node, set(bn), bs)
+    if lr:
+        log.append("%d renamed local(s) given their baseline names back" % lr)
     inliner = Inliner(file, tree, vocab)
     inl = inliner.run()
     if inl:
@@ -3513,10 +3930,14 @@ def normalize_tree(file, tree, vocab):
             STABLE[0] = stable_attrs(node if isinstance(node, ast.ClassDef) else None, f)
             CONTAINER_WRITES[0] = container_writes(node) if isinstance(node, ast.ClassDef) else {}
             t0 = scalarise_records(f, rectypes)
+            t0 += split_chained_assigns(f)
             t0 += canonical_layer_getter(f)
             t0 += unroll_literal_comprehensions(f)
             t0 += split_tuple_assigns(f)
+            t0 += open_generator_iters(f)
+            t0 += dict_calls_to_displays(f) + islice_to_slices(f) + split_fold_accumulators(f)
             t0 += expand_return_ifexp(f) + unroll_literal_loops(f) + expand_dict_splats(f) + open_inline_splats(f)
+            t0 += rematerialise_loop_tests(f)
             t0 += merge_repeated_tests(f)
             t0 += fold_none_tests(f, cname)
             t0 += seed_list_literals(f)
